@@ -429,7 +429,13 @@ class TDMProgram(Program):
 
         if self.space_unrolled_circuit is not None:
             if self._num_added_subsystems > 0:
-                self._delete_subsystems(self.register[-self._num_added_subsystems :])
+                added = self.register[-self._num_added_subsystems :]
+                self._delete_subsystems(added)
+                # the added subsystems were never part of the rolled program: forget them entirely,
+                # so that the next space-unrolling allocates the same indices again
+                for r in added:
+                    del self.reg_refs[r.ind]
+                    self.unused_indices.discard(r.ind)
                 self.init_num_subsystems -= self._num_added_subsystems
                 self._num_added_subsystems = 0
 
